@@ -177,6 +177,11 @@ def _returned_values(b):
                     work.append(({"k": "move", "p": list(ct["args"][1]["p"]) + ["f0"]}, depth + 1))
                 elif c.endswith("FromResidual::from_residual"):
                     continue
+                elif not c and ct.get("fnplace"):
+                    # a call through a function pointer (`Successor::Fresh(create) => create()`): the function it was bound to,
+                    # when the literal is visible in this (inlined) body
+                    fns = {str(y.site) for y in b.origins(ct["fnplace"]) if y.kind == "const" and "::" in str(y.site)}
+                    out |= fns or {"fn-pointer"}
                 else:
                     out.add(c or "?")
             else:
